@@ -464,3 +464,58 @@ def _strip_parents(e):
         return n
 
     return clone(e)
+
+
+class HelperView:
+    """An Inliner for a helper method as seen from one call site in its caller: the helper's parameters stand for the caller's
+    (inlined) argument expressions, so `src()` of an expression inside the helper reads as if the helper's body were written in
+    the caller.  Lets a wiring rule follow a block that a refactoring moved into a helper method."""
+
+    def __init__(self, caller_inl, call, helper_fn):
+        self.inner = Inliner(helper_fn)
+        params = [a.arg for a in helper_fn.args.args]
+        if params and params[0] in ("self", "cls") and isinstance(call.func, ast.Attribute):
+            params = params[1:]
+        self.bind = {}
+        for p, a in zip(params, call.args):
+            self.bind[p] = caller_inl.expr(a)
+        for k in call.keywords:
+            if k.arg:
+                self.bind[k.arg] = caller_inl.expr(k.value)
+        self.params = set()
+        self.defs = self.inner.defs
+
+    def expr(self, e):
+        inner = self.inner.expr(e)
+        bind = self.bind
+
+        class T(ast.NodeTransformer):
+            def visit_Name(self, n):
+                if isinstance(n.ctx, ast.Load) and n.id in bind:
+                    return _strip_parents(bind[n.id])
+                return n
+
+        return T().visit(inner)
+
+    def src(self, e):
+        return norm_src(self.expr(e))
+
+
+def find_call(index_methods, fn, name, depth=1):
+    """the unique call of `self.<name>(...)` in fn, or inside a method of the same class that fn calls (one level):
+    -> (host function, call node, view) where view.src() gives caller-level text; None if not found / ambiguous"""
+    inl = Inliner(fn)
+    own = [c for c in walk_no_nested(fn) if isinstance(c, ast.Call) and isinstance(c.func, ast.Attribute) and c.func.attr == name]
+    if len(own) == 1:
+        return fn, own[0], inl
+    if own or depth == 0:
+        return None
+    found = []
+    for c in walk_no_nested(fn):
+        if isinstance(c, ast.Call) and isinstance(c.func, ast.Attribute) and isinstance(c.func.value, ast.Name) and c.func.value.id == "self" \
+                and c.func.attr in index_methods and c.func.attr != fn.name:
+            h = index_methods[c.func.attr]
+            inner = [x for x in walk_no_nested(h) if isinstance(x, ast.Call) and isinstance(x.func, ast.Attribute) and x.func.attr == name]
+            if len(inner) == 1:
+                found.append((h, inner[0], HelperView(inl, c, h)))
+    return found[0] if len(found) == 1 else None
